@@ -124,6 +124,7 @@ type ModGroup struct {
 }
 
 type SpecDB struct {
+	Unframed  map[string]bool
 	Contracts map[string]*Contract
 	Funcs     map[string]*SpecFunc
 	Axioms    []*Clause
@@ -730,6 +731,13 @@ func (db *SpecDB) loadFile(path, pkgShort string, slashAt bool) error {
 				s = SBool
 			}
 			db.GhostSort[f[0]] = s
+			if len(f) > 2 && f[2] == "unframed" {
+				// a monitor counter that any function may advance without naming it in `modifies`
+				if db.Unframed == nil {
+					db.Unframed = map[string]bool{}
+				}
+				db.Unframed[f[0]] = true
+			}
 			cur = nil
 		default:
 			return fmt.Errorf("%s: unknown directive %q", pos, word)
